@@ -566,6 +566,12 @@ def r6_defaults_not_aliased(chk: Check):
     chk.min_instances(n, 1, "uses of a declared default while building an instance")
 
 
+def r7_reload_tristate(chk: Check):
+    from . import c12
+
+    c12.r3_tristate(chk)
+
+
 RULES = [
     ("R1", "no nondeterministic source (hash(), id(), environment, time, random, repr/str of objects) reaches the hasher", r1_no_nondeterminism),
     ("R2", "every loop feeding the hasher iterates in sorted order, or in an order that is part of the signature (list payload, init tasks)", r2_canonical_order),
@@ -573,4 +579,5 @@ RULES = [
     ("R4", "the extracted byte-stream model of update/compute/identifiers equals the pinned model of released identifiers", r4_wire),
     ("R5", "Job.relpath / relmainpath / identifier read only the type identifier and the configuration identifier", r5_jobpath),
     ("R6", "declared defaults are cloned into instances, never aliased", r6_defaults_not_aliased),
+    ("R7", "reloading keeps the three states of the meta flag (absent stays unset): the identifier recomputed in another process equals the original (= C12.R3)", r7_reload_tristate),
 ]
